@@ -64,8 +64,16 @@ PROP = {
             "sequences of 2..6 (thorough 2..10) peer inputs interleaved with honest traffic (valid transactions, announced+fetched next blocks, pings, key "
             "lists) under random handler schedules (verification / consensus / timer tick / clock advance run eagerly, late or out of phase; everything "
             "queued is drained at the end); two thirds of the random sequences avoid the input classes known to kill the pinned node so that sequences run to "
-            "full length; the side-branch livelock alone, interleaved and defused. Every handler call runs the real code under catch_unwind in a child "
+            "full length; the side-branch livelock alone, interleaved and defused; then the HOSTILE TRANSACTION SHAPE SWEEP (monitor-only: recorded as "
+            "`sweep ...` lines, not compared with the model): every transaction type (all 9) x 0..4 inputs x 0..4 outputs x slip-type patterns per side "
+            "(all Normal; first Bound; Bound,Normal,Bound,..; first BlockStake; mixed; thorough also first ATR) x signed by the attacker's own key / unsigned, zero "
+            "amounts, delivered as a tag-4 message from the peer without handshake AND inside an otherwise valid re-signed fetched block, each followed by "
+            "verification, consensus and a timer tick (many shapes per node; the node is re-created after a panic and every 40 shapes); any panic/stall is "
+            "reported under C11/<handler>/<site>/<tx type>-tx-<slip-count class>. Every handler call runs the real code under catch_unwind in a child "
             "process with a 2.5 s watchdog. non-trivial = distinct step whose outcome is not `handled` (rejected, rate limited, disconnected, panic, stall)",
+    "flags_measured": "12 site flags (1 iff the site's witness sequence no longer panics/stalls on the tree under test) + 3 outcome-class probes smrej / "
+                      "smrejbrowser / smrejspv (1 iff a fetched block that spends a non-existent output is REJECTED by a full / browser / lite node); each witness "
+                      "runs on the real handlers in a child process with a timeout before the cases; the vector is the first line sent to the model driver",
     "assumptions": [
         "outcome classes are derived from observables only: panic (catch_unwind), stall (watchdog), disconnected (io.disconnect_from_peer called for the sender), "
         "rateLimited (handler returned None with the message limit exceeded, or returned without effect while the tag's own limiter is exceeded), rejected "
